@@ -105,10 +105,14 @@ type Walker struct {
 	// AssumeNonNil: values known to be non-nil at the start of Walk (e.g. the
 	// error on the non-nil edge the walk starts from).
 	AssumeNonNil []ssa.Value
+	// AssumeMemo seeds nil-facts by memo key (used for receiver-field facts
+	// carried from a call site into the callee's summary).
+	AssumeMemo map[string]bool
 
 	npaths   int
 	overflow bool
 	sums     map[*ssa.Function][]Counts
+	sumsWith map[string][]Counts
 	inprog   map[*ssa.Function]bool
 	stores   map[*ssa.Function]map[*types.Var]bool
 }
@@ -267,16 +271,72 @@ func (s *PState) forgetField(f *types.Var) {
 }
 
 // Summary: distinct effect-count vectors over all paths entry→return of fn.
-func (w *Walker) Summary(fn *ssa.Function) []Counts {
-	if s, ok := w.sums[fn]; ok {
-		return s
+func (w *Walker) Summary(fn *ssa.Function) []Counts { return w.SummaryWith(fn, nil) }
+
+// receiverFieldTests: the fields of fn's receiver (first parameter) that fn
+// compares with nil.
+func receiverFieldTests(fn *ssa.Function) []*types.Var {
+	if len(fn.Params) == 0 {
+		return nil
+	}
+	seen := map[*types.Var]bool{}
+	var out []*types.Var
+	for _, b := range fn.Blocks {
+		ifi := ifOf(b)
+		if ifi == nil {
+			continue
+		}
+		bo, ok := ifi.Cond.(*ssa.BinOp)
+		if !ok || (bo.Op != token.EQL && bo.Op != token.NEQ) {
+			continue
+		}
+		for _, side := range []ssa.Value{bo.X, bo.Y} {
+			if f, base := loadedField(side); f != nil && origin(base) == ssa.Value(fn.Params[0]) && !seen[f] {
+				seen[f] = true
+				out = append(out, f)
+			}
+		}
+	}
+	return out
+}
+
+// SummaryWith: Summary under nil-facts about fields of the receiver that hold at
+// the call site (field → is nil). A helper's `if r.f == nil` is then the same
+// predicate as the caller's test of r.f (no store of r.f in between: the caller's
+// memo has forgotten the field otherwise).
+func (w *Walker) SummaryWith(fn *ssa.Function, facts map[*types.Var]bool) []Counts {
+	if len(facts) == 0 {
+		if s, ok := w.sums[fn]; ok {
+			return s
+		}
+	}
+	var fkey string
+	if len(facts) > 0 {
+		var ks []string
+		for f, v := range facts {
+			ks = append(ks, fmt.Sprintf("%p=%v", f, v))
+		}
+		sort.Strings(ks)
+		fkey = strings.Join(ks, ",")
+		if w.sumsWith == nil {
+			w.sumsWith = map[string][]Counts{}
+		}
+		if s, ok := w.sumsWith[fmt.Sprintf("%p|%s", fn, fkey)]; ok {
+			return s
+		}
 	}
 	if w.inprog[fn] || fn.Blocks == nil {
 		return []Counts{{}}
 	}
 	w.inprog[fn] = true
 	sub := &Walker{c: w.c, Effect: w.Effect, Edge: nil, Stop: nil, NonNil: w.NonNil, MaxVisits: w.MaxVisits, MaxPaths: w.MaxPaths, Inline: w.Inline - 1, NoPanicEnds: w.NoPanicEnds,
-		sums: w.sums, inprog: w.inprog, stores: w.stores}
+		sums: w.sums, inprog: w.inprog, stores: w.stores, sumsWith: w.sumsWith}
+	if len(facts) > 0 {
+		sub.AssumeMemo = map[string]bool{}
+		for f, v := range facts {
+			sub.AssumeMemo[fmt.Sprintf("f:%p:%p", f, ssa.Value(fn.Params[0]))] = v
+		}
+	}
 	ends := sub.Walk(fn, entryLoc(fn))
 	if sub.overflow {
 		w.overflow = true
@@ -297,7 +357,11 @@ func (w *Walker) Summary(fn *ssa.Function) []Counts {
 		out = []Counts{{}}
 	}
 	delete(w.inprog, fn)
-	w.sums[fn] = out
+	if len(facts) > 0 {
+		w.sumsWith[fmt.Sprintf("%p|%s", fn, fkey)] = out
+	} else {
+		w.sums[fn] = out
+	}
 	return out
 }
 
@@ -308,6 +372,9 @@ func (w *Walker) Walk(fn *ssa.Function, from Loc) []PathEnd {
 	st := &PState{Counts: Counts{}, memo: map[string]bool{}, phi: map[*ssa.Phi]ssa.Value{}, visits: map[*ssa.BasicBlock]int{}}
 	st.visits[from.B] = 1
 	st.Trace = []int{from.B.Index}
+	for k, v := range w.AssumeMemo {
+		st.memo[k] = v
+	}
 	for _, v := range w.AssumeNonNil {
 		if f, base := loadedField(v); f != nil {
 			st.memo[fmt.Sprintf("f:%p:%p", f, origin(base))] = false
@@ -343,7 +410,19 @@ func (w *Walker) applyCall(fn *ssa.Function, st *PState, ins ssa.Instruction, co
 		cont(st)
 		return
 	}
-	sums := w.Summary(callees[0])
+	var facts map[*types.Var]bool
+	if len(cc.Args) > 0 && callees[0].Signature.Recv() != nil {
+		base := origin(cc.Args[0])
+		for _, f := range receiverFieldTests(callees[0]) {
+			if v, ok := st.memo[fmt.Sprintf("f:%p:%p", f, base)]; ok {
+				if facts == nil {
+					facts = map[*types.Var]bool{}
+				}
+				facts[f] = v
+			}
+		}
+	}
+	sums := w.SummaryWith(callees[0], facts)
 	if len(sums) == 1 {
 		for k, v := range sums[0] {
 			st.Counts[k] += v
